@@ -143,7 +143,7 @@ static void arm_watchdog(unsigned seconds)
     itimerval it{};
     it.it_value.tv_sec = seconds;
     setitimer(ITIMER_PROF, &it, nullptr);
-    alarm(seconds * 8);
+    alarm(seconds * 4);
 }
 static void disarm_watchdog()
 {
@@ -429,7 +429,7 @@ static std::string classify_forked_raw(const js::Value& plan, std::string* props
             itimerval it{};
             it.it_value.tv_sec = plan.gets("world", "seq") == "seq" ? 10 : 20;
             setitimer(ITIMER_PROF, &it, nullptr);
-            alarm((unsigned)it.it_value.tv_sec * 8);
+            alarm((unsigned)it.it_value.tv_sec * 4);
         }
         // the child reports which call it is about to make: if it dies, the last tag says where
         g_ctx_fd         = fds[1];
